@@ -130,6 +130,10 @@ def step (s : State) : Line → State
 
 def run (file : List Line) : State := file.foldl step init
 
+/-- A read history on one `Shelxfile` object: `read_string`, `read_file` and `reload` all begin with
+    `self.__init__()`, so every read starts from `init`; nothing of an earlier read survives. -/
+def readHistory (files : List (List Line)) : State := files.foldl (fun _ f => run f) init
+
 /-! #### the code before fixes C03_1 … C03_3 (commit e475fe2): HKLF / END mutate the shared objects -/
 
 def setAt {α} (l : List α) (i : Nat) (f : α → α) : List α :=
